@@ -27,11 +27,14 @@ pub struct Case {
     /// from: failed runs, abandoned fibers, ...).  The model does not see them: the program must behave
     /// as on a new interpreter.  Their own results are not compared; none may panic.
     pub prelude: Vec<String>,
+    /// metamorphic cases: the source the implementation runs instead of the printed program (the model
+    /// runs `prog`); the law that makes both observationally equal is stated by the family
+    pub impl_src: Option<String>,
 }
 
 impl Case {
     pub fn new(family: &'static str, prog: Vec<Stmt>) -> Case {
-        Case { family, prog, modules: BTreeMap::new(), opts: CmpOpts { trace: false, kind: false }, also_full_parens: false, note: String::new(), prelude: Vec::new() }
+        Case { family, prog, modules: BTreeMap::new(), opts: CmpOpts { trace: false, kind: false }, also_full_parens: false, note: String::new(), prelude: Vec::new(), impl_src: None }
     }
 }
 
@@ -232,6 +235,9 @@ fn judge_batch(runner: &mut Runner, hooks: &Hooks, batch: Vec<Case>, check_deter
             let prog = Arc::new(case.prog.clone());
             let mut src = print_program(&prog, full);
             src.push_str(&case.note);
+            if let Some(other) = &case.impl_src {
+                src = other.clone();
+            }
             let model = model_run(prog, &case.modules);
             for e in &model.events {
                 *stats.events_seen.entry(e.name.to_string()).or_insert(0) += 1;
